@@ -20,7 +20,12 @@ RELATED = {'C01-m1':['C01','C17'],'C01-m2':['C01','C14'],'C02-m1':['C02','C01'],
  'C01-m7':['C01','C17'],'C01-m8':['C01','C02','C14'],'C02-m7':['C02','C12','C14'],'C02-m8':['C02','C01'],'C03-m7':['C03'],'C03-m8':['C03','C07'],'C04-m7':['C04'],'C04-m8':['C04','C01'],
  'C05-m7':['C05'],'C05-m8':['C05','C06'],'C06-m7':['C06','C05'],'C06-m8':['C06'],'C07-m7':['C07','C03','C06'],'C07-m8':['C07','C02'],'C10-m7':['C10','C11'],'C10-m8':['C10'],
  'C11-m7':['C11','C04'],'C11-m8':['C11'],'C12-m7':['C12'],'C12-m8':['C12','C14'],'C13-m7':['C13','C07'],'C13-m8':['C13'],'C14-m7':['C14','C12'],'C14-m8':['C14','C13'],'C15-m7':['C15','C06'],'C15-m8':['C15','C05'],
- 'C16-m7':['C16'],'C16-m8':['C16','C07'],'C17-m7':['C17'],'C17-m8':['C17'],'C18-m7':['C18'],'C18-m8':['C18'],'C19-m7':['C19'],'C19-m8':['C19'],'C20-m7':['C20'],'C20-m8':['C20','C11']}
+ 'C16-m7':['C16'],'C16-m8':['C16','C07'],'C17-m7':['C17'],'C17-m8':['C17'],'C18-m7':['C18'],'C18-m8':['C18'],'C19-m7':['C19'],'C19-m8':['C19'],'C20-m7':['C20'],'C20-m8':['C20','C11'],
+ 'C01-m9':['C01','C02'],'C01-m10':['C01'],'C02-m9':['C02','C17','C01'],'C02-m10':['C02','C14'],'C03-m9':['C03','C07'],'C03-m10':['C03','C05'],'C04-m9':['C04','C03'],'C04-m10':['C04'],
+ 'C05-m9':['C05','C06'],'C05-m10':['C05','C07'],'C06-m9':['C06','C15'],'C06-m10':['C06','C02'],'C07-m9':['C07'],'C07-m10':['C07','C04'],'C10-m9':['C10'],'C10-m10':['C10'],
+ 'C11-m9':['C11','C07'],'C11-m10':['C11','C04'],'C12-m9':['C12','C07'],'C12-m10':['C12'],'C13-m9':['C13'],'C13-m10':['C13'],'C14-m9':['C14','C07'],'C14-m10':['C14','C01'],
+ 'C15-m9':['C15','C06'],'C15-m10':['C15','C06'],'C16-m9':['C16'],'C16-m10':['C16'],'C17-m9':['C17'],'C17-m10':['C17'],'C18-m9':['C18'],'C18-m10':['C18'],
+ 'C19-m9':['C19'],'C19-m10':['C19'],'C20-m9':['C20'],'C20-m10':['C20','C07']}
 def one(d):
     name=os.path.basename(d)
     meta=json.load(open(os.path.join(d,'meta.json')))
